@@ -165,6 +165,7 @@ type c19Col struct {
 type c19Gen struct {
 	r    *Rng
 	next int
+	base time.Time // first instant of the generated data: winter, summer, or the evening before a daylight-saving switch
 }
 
 func (g *c19Gen) urn() string { g.next++; return fmt.Sprintf("f%d", g.next) }
@@ -174,7 +175,17 @@ var c19Zones = []string{"UTC", "~", "Europe/Berlin", "America/New_York", "Asia/K
 func (g *c19Gen) pickS(l ...string) string { return l[g.r.Intn(len(l))] }
 
 func (g *c19Gen) ts(i int) *sx {
-	return sxAtom(time.Date(2025, 1, 1, 0, 0, 0, 0, time.UTC).Add(time.Duration(i) * 20 * time.Minute).Format(time.RFC3339Nano))
+	if g.base.IsZero() {
+		switch g.r.Intn(4) {
+		case 0:
+			g.base = time.Date(2025, 7, 1, 0, 0, 0, 0, time.UTC)
+		case 1:
+			g.base = time.Date(2025, 3, 29, 22, 0, 0, 0, time.UTC)
+		default:
+			g.base = time.Date(2025, 1, 1, 0, 0, 0, 0, time.UTC)
+		}
+	}
+	return sxAtom(g.base.Add(time.Duration(i) * 20 * time.Minute).Format(time.RFC3339Nano))
 }
 
 // dyadic decimal d:<m>:<e> with value k/4
@@ -823,6 +834,7 @@ func genC19(c *Ctx) {
 	g := &c19Gen{r: c.Rng}
 	for i := c.Pick(2500, 30000); i > 0; i-- {
 		g.next = 0
+		g.base = time.Time{}
 		kind, tree := g.tree(c.Rng.Intn(4))
 		text := "rt " + kind + " " + tree.String()
 		obs, nt := c19Rt(kind, strings.Fields(tree.String()))
@@ -831,6 +843,7 @@ func genC19(c *Ctx) {
 	// (3) malformed stream
 	for i := c.Pick(5000, 60000); i > 0; i-- {
 		g.next = 0
+		g.base = time.Time{}
 		c19MalCase(c, g)
 	}
 }
